@@ -73,6 +73,7 @@ type Factory struct {
 	ntok   int
 	tokEqM map[[2]int]*Term
 	Vars   []*Term
+	HashOrderUsed int
 }
 
 func NewFactory() *Factory {
@@ -606,6 +607,18 @@ func (f *Factory) Cmp(op Op, a, b *Term) *Term {
 		} else if a.Val == b.Val {
 			return f.TokEq(a.Tok, b.Tok)
 		}
+	}
+	// Ordering of hash bytes (only needed when hash-keyed legacy records sit in the ordered store, C16):
+	// distinct digests are ordered by token creation order. Equality stays exact (TokEq); the order is
+	// one fixed representative of the possible orders (stated as outside the claim: other hash orders).
+	if (op == OpUlt || op == OpUle) && a.Op == OpHashByte && b.Op == OpHashByte && a.Val == b.Val {
+		f.HashOrderUsed++
+		eq := f.TokEq(a.Tok, b.Tok)
+		lt := f.And(f.Not(eq), f.Bool(a.Tok.ID < b.Tok.ID))
+		if op == OpUlt {
+			return lt
+		}
+		return f.Or(lt, eq)
 	}
 	// zero-extended operands
 	if a.Op == OpZExt && b.Op == OpZExt && a.Args[0].W == b.Args[0].W {
